@@ -609,3 +609,135 @@ def run_model(cases, tol=1e-7, tag='C09wf', rays_per_file=160):
             else:
                 ok_launch[ci] = False
     return ok_data, ok_launch, n
+
+
+# --------------------------------------------------------------------------
+# the OPD-difference operand on ITS documented samples (Gaussian quadrature, Forbes 1988)
+# --------------------------------------------------------------------------
+# radii / weights as documented (tabulated to 5 digits); gq_table_deviation() ties them to Gauss-Legendre
+GQ_RADII = {1: [0.70711], 2: [0.45970, 0.88807], 3: [0.33571, 0.70711, 0.94196], 4: [0.26350, 0.57446, 0.81853, 0.96466],
+            5: [0.21659, 0.48038, 0.70711, 0.87706, 0.97626], 6: [0.18375, 0.41158, 0.61700, 0.78696, 0.91138, 0.98300]}
+GQ_WEIGHTS = {1: [0.5], 2: [0.25, 0.25], 3: [0.13889, 0.22222, 0.13889], 4: [0.08696, 0.16304, 0.16304, 0.08696],
+              5: [0.059231, 0.11966, 0.14222, 0.11966, 0.059231], 6: [0.04283, 0.09019, 0.11698, 0.11698, 0.09019, 0.04283]}
+
+
+def gq_table_deviation():
+    """largest distance of the tabulated radii / weights from r_i = sqrt((1 + t_i)/2), w_i = g_i/4 with (t_i, g_i) the
+    Gauss-Legendre nodes / weights on [-1, 1] (the rule the documentation cites); the table is rounded to 5 digits"""
+    dev = 0.0
+    for n in GQ_RADII:
+        t, g = np.polynomial.legendre.leggauss(n)
+        dev = max(dev, float(np.max(np.abs(np.sqrt((1 + t) / 2) - GQ_RADII[n]))), float(np.max(np.abs(g / 4 - GQ_WEIGHTS[n]))))
+    return dev
+
+
+def gq_documented(rings, on_axis):
+    """pupil points and per-sample weights the operand documents: `rings` radii on one arm (theta = 0) for the axial
+    field, on three arms (theta = -60, 0, +60 degrees) otherwise, ring-major.  Forbes' rule has six arms: the single arm of
+    the rotationally symmetric case stands for all six (weight 6 w_ring), each of the three arms of the half pupil for
+    itself and its mirror image in the y axis (weight 2 w_ring); the weights of all samples add up to 3 either way"""
+    arms = [0.0] if on_axis else [-math.pi / 3, 0.0, math.pi / 3]
+    mult = 6.0 / len(arms)
+    xs, ys, ws = [], [], []
+    for r, wt in zip(GQ_RADII[rings], GQ_WEIGHTS[rings]):
+        for th in arms:
+            xs.append(r * math.cos(th))
+            ys.append(r * math.sin(th))
+            ws.append(mult * wt)
+    return xs, ys, ws
+
+
+def mean_abs_dev(opd, weights):
+    """mean over ALL samples of |w_i (d_i - mean d)|: not a number as soon as one sample has no OPD"""
+    n = len(opd)
+    m = sum(opd) / n
+    return sum(abs(w_ * (d - m)) for d, w_ in zip(opd, weights)) / n
+
+
+def operand_corpus():
+    """fixed lenses (independent of any random stream) for the operand check: beams that pass entirely, and beams whose
+    OUTERMOST Gaussian-quadrature ring (only) does not reach the image: (a) it passes outside a strongly curved front
+    surface (ring radius * EPD/2 > |R|), (b) it is totally reflected at a steep glass-air surface (height > |R|/n).
+    The aperture is derived from the documented ring radii so that ring k fails and ring k-1 does not.
+    Each entry: (spec, rings to ask for, class label)"""
+    inf = float('inf')
+    out = []
+
+    def lens(name, surfaces, epd, field=3.0, obj=inf, w=0.55):
+        return {'name': name, 'object_thickness': obj, 'aperture': ['EPD', epd],
+                'field_type': 'angle' if math.isinf(obj) else 'object_height',
+                'fields': [[0.0, 0.0, 0.0, 0.0], [field, 0.0, 0.0, 0.0]], 'wavelengths': [[w, True]], 'telecentric': False,
+                'surfaces': surfaces}
+    bk7 = ['glass', 'N-BK7', 'schott']
+    for rings in (1, 3, 6):
+        out.append((lens('healthy-biconvex', [
+            {'type': 'standard', 'radius': 40.0, 'thickness': 6.0, 'material': bk7, 'is_stop': True},
+            {'type': 'standard', 'radius': -60.0, 'thickness': 45.0, 'material': 'air'}], 16.0, field=6.0), rings, 'all-arrive'))
+    out.append((lens('healthy-finite-object', [
+        {'type': 'standard', 'radius': 50.0, 'thickness': 5.0, 'material': ['ideal', 1.6, 0.0], 'is_stop': True},
+        {'type': 'standard', 'radius': -50.0, 'thickness': 90.0, 'material': 'air'}], 8.0, field=6.0, obj=150.0), 4, 'all-arrive'))
+    # (a) the outer ring is wider than the front surface
+    for rings, R in ((2, 22.0), (3, 35.0), (4, 28.0), (5, 40.0), (6, 30.0)):
+        rr = GQ_RADII[rings]
+        half = R / math.sqrt(rr[-1] * rr[-2])          # rr[-2]*half < R < rr[-1]*half
+        out.append((lens(f'outer-ring-misses-front-surface-{rings}', [
+            {'type': 'standard', 'radius': R, 'thickness': 1.2 * R, 'material': bk7, 'is_stop': True},
+            {'type': 'standard', 'radius': -12.0 * R, 'thickness': 1.3 * R, 'material': 'air'}], 2 * half, field=2.0),
+            rings, 'outer-ring-misses-a-surface'))
+    # (b) the outer ring meets the curved back surface beyond the critical angle
+    for rings, R, n in ((3, 20.0, 1.7), (5, 26.0, 1.6), (6, 18.0, 1.8)):
+        rr = GQ_RADII[rings]
+        half = (R / n) / math.sqrt(rr[-1] * rr[-2])
+        out.append((lens(f'outer-ring-totally-reflected-{rings}', [
+            {'type': 'standard', 'radius': inf, 'thickness': 0.75 * R, 'material': ['ideal', n, 0.0], 'is_stop': True},
+            {'type': 'standard', 'radius': -R, 'thickness': 1.1 * R, 'material': 'air'}], 2 * half, field=1.0),
+            rings, 'outer-ring-totally-reflected'))
+    # finite object, height field: the cone of the outer ring is wider than the front surface
+    rr = GQ_RADII[4]
+    out.append((lens('outer-ring-misses-finite-object', [
+        {'type': 'standard', 'radius': 25.0, 'thickness': 30.0, 'material': bk7, 'is_stop': True},
+        {'type': 'standard', 'radius': -300.0, 'thickness': 60.0, 'material': 'air'}], 2 * 25.0 / math.sqrt(rr[-1] * rr[-2]),
+        field=2.0, obj=400.0), 4, 'outer-ring-misses-a-surface'))
+    return out
+
+
+def operand_case(spec, optic, H, w, rings):
+    """RayOperand.OPD_difference(optic, H, rings, w) against the property's quantity on the documented samples:
+    the documented points are traced (chief alone + batch), the OPD of every sample is recomputed from the recorded
+    ray data by the oracle (a ray that does not arrive has none: NaN), and reduced with the documented weights.
+    Returns (record, witness or None)"""
+    from optiland.wavefront import Wavefront
+    from optiland.optimization.operand.ray import RayOperand
+    H = (float(H[0]), float(H[1]))
+    xs, ys, ws = gq_documented(rings, on_axis=(H == (0.0, 0.0)))
+    od = float(RayOperand.OPD_difference(optic, H[0], H[1], rings, w))
+    dist = make_distribution('line_y', 1)
+    dist.x, dist.y = np.array(xs), np.array(ys)
+    wf = Wavefront(optic, [H], [w], len(xs), dist)
+    c = case_from_data(spec, optic, H, w, dist, wf.data[0][0][0], wf.data[0][0][1], dist_name='documented-gaussian-quadrature',
+                       dist_n=rings)
+    chief_ok = all(math.isfinite(v) for v in c['chief'][-1][:6])
+    exp = expected_samples(c) if chief_ok else [float('nan')] * len(xs)
+    arrived = [all(math.isfinite(v) for v in r[-1][:6]) for r in c['rays']]
+    e = mean_abs_dev(exp, ws)
+    tol = 1e-6 + newton_slack(c)
+    rec = dict(case=c, operand=od, expected=e, failed=len(xs) - sum(arrived), samples=len(xs), chief_ok=chief_ok)
+    if math.isfinite(od) and math.isfinite(e):
+        ok = abs(od - e) <= tol + 1e-9 * (abs(od) + abs(e))
+    else:
+        ok = (not math.isfinite(od)) and (not math.isfinite(e))
+    if ok:
+        return rec, None
+    surv = [d for d, a in zip(exp, arrived) if a and math.isfinite(d)]
+    wit = {'spec': spec, 'H': list(H), 'wavelength': float(w), 'rings': rings, 'samples': len(xs),
+           'samples_whose_ray_does_not_reach_the_image': [{'index': i, 'pupil': [xs[i], ys[i]], 'weight': ws[i]}
+                                                          for i, a in enumerate(arrived) if not a][:6],
+           'operand_reported': od, 'expected_on_documented_samples': e,
+           'expected_opd_waves': exp[:18], 'weights': ws[:18],
+           'derived': 'RayOperand.OPD_difference is not mean|w (OPD - mean OPD)| of the path difference evaluated on its documented '
+                      'Gaussian-quadrature samples and weights',
+           'explained_by': None, 'violates_property': True}
+    if surv and len(surv) < len(xs) and math.isfinite(od):
+        ws_s = [w_ for w_, d, a in zip(ws, exp, arrived) if a and math.isfinite(d)]
+        wit['value_on_the_surviving_samples_only'] = mean_abs_dev(surv, ws_s)
+    return rec, wit
